@@ -47,7 +47,10 @@ func (t *c20T) Errorf(format string, args ...any) {
 	}
 }
 func (t *c20T) FailNow() { t.failNow++ } // does not unwind, as a mock would not
-func (t *c20T) Helper()  {}
+// Failed is what *testing.T also has: a helper may look at it, but an earlier failure on the same t is no reason to
+// stay silent about the next one.
+func (t *c20T) Failed() bool { return t.errorf > 0 || t.failNow > 0 }
+func (t *c20T) Helper()      {}
 
 // ---- scripted types. The behaviour is a function of the payload.
 
@@ -102,6 +105,10 @@ func c20Marshal(id, mbeh int) ([]byte, error) {
 	case 6: // right data together with a non-nil error interface holding a nil pointer
 		var e *c20NilSafe
 		return []byte(c20Data(id, mbeh, 0)), e
+	case 7: // nothing to write: a nil slice and no error (the empty text)
+		return nil, nil
+	case 8: // nothing to write: an empty, non-nil slice and no error
+		return []byte{}, nil
 	}
 	panic(fmt.Sprintf("kaboom %d", id))
 }
@@ -321,6 +328,7 @@ type c20Spec struct {
 	NilValue   bool // T = *SP only: Value is a nil pointer (unmarshal-only cases)
 	ZeroValue  bool // unmarshal-only cases of non-pointer types: the expected Value is the zero value of T (a nil map, a nil slice, an all-zero struct)
 	Wildcard   bool // unmarshal-only cases run with the asymmetric TypeHelper: the expected Value's second field means "any"
+	EmptyData  bool // marshal-only cases: the expected Data is empty
 }
 
 func c20ErrFunc(s c20Spec) test.AssertErrorFunc {
@@ -386,6 +394,9 @@ func c20Hook[C any](kind int, rewrite func(*C)) func(int, *C) error {
 }
 
 func c20ExpectedData(s c20Spec) string {
+	if s.EmptyData && s.Constraint == 1 {
+		return ""
+	}
 	d := c20Data(s.ID, s.MBeh, s.UBeh)
 	// the marshaler always writes unmarshal-behaviour 0 into its output; a case that is used in both
 	// directions and wants another unmarshal behaviour therefore cannot also expect the right data
@@ -451,6 +462,9 @@ func c20JudgeCase(s c20Spec, marshalDir bool) (applicable bool, j c20Judgement) 
 		panics, hasErr, hasResult = s.MBeh == 3 || s.MBeh == 5, s.MBeh == 1 || s.MBeh == 2 || s.MBeh == 4 || s.MBeh == 6, s.MBeh == 0 || s.MBeh == 2 || s.MBeh == 6
 		// what the marshaler writes is c20Data(ID, MBeh, 0); the case expects c20ExpectedData
 		rightResult = s.DataRight && s.ValueRight && s.UBeh == 0
+		if s.MBeh == 7 || s.MBeh == 8 || (s.EmptyData && s.Constraint == 1) { // empty output: right exactly when empty data is expected (nil or not)
+			rightResult = (s.MBeh == 7 || s.MBeh == 8) && s.EmptyData && s.Constraint == 1
+		}
 	} else {
 		panics, hasErr, hasResult = s.UBeh == 4 || s.UBeh == 6, s.UBeh == 2 || s.UBeh == 3 || s.UBeh == 5 || s.UBeh == 8, s.UBeh == 0 || s.UBeh == 1 || s.UBeh == 3 || s.UBeh == 7
 		rightResult = s.UBeh == 0 && s.ValueRight && !s.ZeroValue
@@ -698,8 +712,13 @@ func c20ExpID(s c20Spec) int {
 
 // c20RunList runs one helper on one list (type: 0 SV, 1 *SP, 2 NoIface) and compares with the oracle.
 func c20RunList(w *rt.W, helper, typ int, withHelper bool, specs []c20Spec) c20ListJudgement {
+	return c20RunListOn(w, &c20T{}, helper, typ, withHelper, specs)
+}
+
+// c20RunListOn runs the list on a TestingT that may already have recorded failures of earlier helper calls.
+func c20RunListOn(w *rt.W, t *c20T, helper, typ int, withHelper bool, specs []c20Spec) c20ListJudgement {
 	marshalDir := helper%2 == 0
-	t := &c20T{}
+	e0, f0 := t.errorf, t.failNow
 	modified := ""
 	panicked, msg := rt.Call(func() {
 		switch typ {
@@ -781,10 +800,10 @@ func c20RunList(w *rt.W, helper, typ int, withHelper bool, specs []c20Spec) c20L
 	})
 	w.Eval(1)
 	j := c20JudgeList(specs, marshalDir, !c20Implements(typ, helper))
-	reported := t.errorf > 0 || t.failNow > 0
+	reported := t.errorf > e0 || t.failNow > f0
 	args := func() map[string]any {
 		b, _ := json.Marshal(specs)
-		return rt.Args("helper", helper, "helper_name", c20HelperNames[helper], "type", typ, "with_type_helper", withHelper, "specs", string(b), "oracle_reasons", strings.Join(j.reasons, "; "))
+		return rt.Args("helper", helper, "helper_name", c20HelperNames[helper], "type", typ, "with_type_helper", withHelper, "specs", string(b), "oracle_reasons", strings.Join(j.reasons, "; "), "testing_t_had_failed_before", e0+f0 > 0)
 	}
 	if panicked {
 		w.Fail("panic-escaped:"+c20HelperNames[helper], "list", args(), "panic: "+strings.SplitN(msg, "\n", 2)[0], "no panic", "a panic escaped the helper\n"+msg)
@@ -842,7 +861,7 @@ func c20GenSpec(r *rt.Rand, id int) c20Spec {
 	// most cases satisfied, each defect introduced with moderate probability so single-defect lists are common
 	switch r.Intn(10) {
 	case 0:
-		s.MBeh = 1 + r.Intn(6)
+		s.MBeh = 1 + r.Intn(8)
 	case 1:
 		s.DataRight = false
 	}
@@ -877,6 +896,12 @@ func c20GenSpec(r *rt.Rand, id int) c20Spec {
 	}
 	if s.Constraint == 2 && s.ErrKind != 0 && r.Bool() {
 		s.NilValue = true
+	}
+	if s.Constraint == 1 && r.Chance(1, 6) { // the empty text expected; most often from a marshaler that writes nothing
+		s.EmptyData = true
+		if r.Chance(3, 4) && s.ErrKind == 0 {
+			s.MBeh = 7 + r.Intn(2)
+		}
 	}
 	if s.Constraint == 2 && r.Chance(1, 5) { // the zero value expected; most often from an unmarshaler that leaves the receiver alone
 		s.ZeroValue = true
@@ -972,6 +997,14 @@ func runC20(c *rt.Ctx) {
 					w.ClassN("case-by-case-runs", int64(n))
 				}
 			}
+			if i%3 == 0 && n > 0 && typ != 7 { // one *testing.T for a whole test function: an earlier helper call has failed on it
+				t := &c20T{}
+				t.Errorf("an earlier check of the same test failed")
+				for _, helper := range []int{r.Intn(6), r.Intn(6)} {
+					c20RunListOn(w, t, helper, typ, withHelper && helper%2 == 1, specs)
+				}
+				w.ClassN("helper-called-on-an-already-failed-t", 2)
+			}
 			if i%5003 == 0 && w.Class("sample-list") {
 				b, _ := json.Marshal(specs)
 				w.Sample("list", map[string]any{"type": typ, "with_type_helper": withHelper, "specs": json.RawMessage(b)})
@@ -982,6 +1015,7 @@ func runC20(c *rt.Ctx) {
 	c.Require("list-must-pass", 10000)
 	c.Require("case-by-case-runs", 10000)
 	c.Require("interface-typed-T", 1000)
+	c.Require("helper-called-on-an-already-failed-t", 10000)
 	c.Require("nil-map-or-slice-expected-and-left-alone", 200)
 	c.Require("asymmetric-type-helper-case", 200)
 	c.Require("loosely-self-comparing-type-with-partial-difference", 50)
